@@ -93,6 +93,8 @@ func Harness_C05_signedBytes() {
 		cert := vBytes("cert", 1+vChoice("cert-len", 3))
 		sct := SignedCertificateTimestamp{SCTVersion: V1, Timestamp: ts, Extensions: ext, Signature: sig}
 		leaf := CreateX509MerkleTreeLeaf(ASN1Cert{Data: cert}, vU64("leaf-ts"))
+		// the leaf's own timestamp and extensions are not signed fields of the SCT: they never reach the signed bytes
+		leaf.TimestampedEntry.Extensions = vBytes("leaf-ext", vChoice("leaf-ext-len", 3))
 		err := sv.VerifySCTSignature(sct, LogEntry{Leaf: *leaf})
 		vAssert(c05Calls == 1 && c05Key == crypto.PublicKey(key), "verified under the verifier's key")
 		vAssert(bytes.Equal(c05Data, rfcSCTSignatureInput(ts, false, cert, nil, nil, ext)), "signed bytes are the RFC 6962 input built from the SCT's timestamp and extensions and the entry")
